@@ -130,7 +130,7 @@ func (p *proto) handleGo(m struct {
 	g := m.Go
 	go func() {
 		for j := 0; j < g.Count; j++ {
-			if err := p.SendToParent(&Ping{Run: g.Run, ID: g.Child*1000 + j, Work: g.Work}); err != nil {
+			if err := p.SendToParent(&Ping{Run: g.Run, ID: g.Child*100 + j, Work: g.Work}); err != nil {
 				log.Lvl3("send to parent:", err)
 			}
 		}
@@ -199,6 +199,12 @@ func run(raw json.RawMessage) lib.Case {
 	if err := json.Unmarshal(raw, &in); err != nil {
 		panic(err)
 	}
+	t0 := time.Now()
+	defer func() {
+		if os.Getenv("VERIF_C05_TIMING") != "" {
+			fmt.Fprintf(os.Stderr, "c05 case %+v took %.1fs\n", in, time.Since(t0).Seconds())
+		}
+	}()
 	rec = newRecorder()
 	sched = lib.NewSched()
 	onet.SetVerifHook(sched.Hook)
@@ -238,7 +244,7 @@ func run(raw json.RawMessage) lib.Case {
 		expected := nchildren*in.PerChild + in.Local
 		if k == in.Blocked {
 			// the very first message of the blocked run never returns until released
-			blockedMsgID = 900000
+			blockedMsgID = 990
 			expected++
 			wg.Add(1)
 			go func() {
@@ -261,7 +267,7 @@ func run(raw json.RawMessage) lib.Case {
 					for j := 0; j < in.Backlog; j++ {
 						rootOv.TransmitMsg(&onet.ProtocolMsg{
 							From: tok.ChangeTreeNodeID(child.ID), To: tok, ServerIdentity: child.ServerIdentity,
-							Msg: &Ping{Run: k, ID: 600000 + j, Work: 0}, MsgType: network.MessageType(&Ping{}), Size: 8}, nil)
+							Msg: &Ping{Run: k, ID: 2000 + j, Work: 0}, MsgType: network.MessageType(&Ping{}), Size: 8}, nil)
 					}
 				}()
 			}
@@ -289,7 +295,7 @@ func run(raw json.RawMessage) lib.Case {
 				for j := 0; j < n; j++ {
 					rootOv.TransmitMsg(&onet.ProtocolMsg{
 						From: tok.ChangeTreeNodeID(child.ID), To: tok, ServerIdentity: child.ServerIdentity,
-						Msg: &Ping{Run: k, ID: 500000 + f*1000 + j, Work: work}, MsgType: network.MessageType(&Ping{}), Size: 8}, nil)
+						Msg: &Ping{Run: k, ID: 1000 + f*100 + j, Work: work}, MsgType: network.MessageType(&Ping{}), Size: 8}, nil)
 				}
 			}()
 		}
@@ -338,7 +344,7 @@ func run(raw json.RawMessage) lib.Case {
 		// than the handlers take them: the queue never drains and grows through several sizes
 		want[in.Blocked] += in.Trickle
 		for j := 0; j < in.Trickle; j++ {
-			inject(in.Blocked, 610000+j, 250)
+			inject(in.Blocked, 3000+j, 250)
 			time.Sleep(120 * time.Microsecond)
 		}
 	}
@@ -347,7 +353,7 @@ func run(raw json.RawMessage) lib.Case {
 		// the instance is idle again after the burst: one message, then two that overlap
 		k := in.Blocked
 		want[k]++
-		inject(k, 620000, 0)
+		inject(k, 4000, 0)
 		okAll = waitEnded(want, 30*time.Second)
 		want[k] += 2
 		var wg2 sync.WaitGroup
@@ -355,7 +361,7 @@ func run(raw json.RawMessage) lib.Case {
 			wg2.Add(1)
 			go func(j int) {
 				defer wg2.Done()
-				inject(k, 620000+j, 3000)
+				inject(k, 4000+j, 3000)
 			}(j)
 		}
 		wg2.Wait()
@@ -376,13 +382,13 @@ func run(raw json.RawMessage) lib.Case {
 					From: tok.ChangeTreeNodeID(child.ID), To: tok, ServerIdentity: child.ServerIdentity,
 					Msg: &Ping{Run: k, ID: id, Work: 0}, MsgType: network.MessageType(&Ping{}), Size: 8}, nil)
 			}
-			inject(700001)
+			inject(991)
 			want[k]++
 			if !g.WaitHit(20 * time.Second) {
 				g.Release()
 				continue
 			}
-			inject(700002)
+			inject(992)
 			want[k]++
 			g.Release()
 		}
